@@ -3,26 +3,92 @@ From Coq Require Import List NArith ZArith Bool Arith Lia.
 From Verif Require Import c01vm2.Syntax c01vm2.Code c01vm2.VM c01vm2.Den c01vm2.Compile c01vm2.Mach c01vm2.Gen.
 Import ListNotations.
 
-(* the visible variables and labels live at addresses below [lim] and hold the values of the environment *)
+(* ---- environments ---- *)
+Section E.
+Variable code : list instr.
+
+(* a value variable lives at an address below [lim] and holds the value of the environment *)
+Definition valOK (sc : list frame) (vs : list sv) (lim : nat) (y : var) (w : jv) : Prop :=
+  exists a, index_of sc y = Some a /\ a < lim /\ nth_error vs a = Some (SV w).
+(* a defined function: at pc p there is its opscope, followed by the code of its body compiled in the environment
+   that starts at the function's own entry (with no label), and opret; the slots visible in the body belong to
+   scopes older than the function's *)
+Definition funOK (p : nat) (body : query) (cel : list (BinNums.N * cbind)) : Prop :=
+  exists idf nvb cb s0 s1,
+    nth_error code p = Some (Iscope idf nvb 0) /\
+    comp body {| ce_env := cel; ce_lbls := [] |} idf (p + 1) 0 s0 = Some (cb, nvb, s1) /\
+    (forall i x, nth_error (cb ++ [Iret]) i = Some x -> nth_error code (p + 1 + i) = Some x) /\
+    ce_lt {| ce_env := cel; ce_lbls := [] |} idf = true.
+
+(* the compile-time environment and the semantic environment are parallel lists *)
+Fixpoint envOKl (sc : list frame) (vs : list sv) (lim : nat) (cel : list (BinNums.N * cbind)) (rho : venv) : Prop :=
+  match cel, rho with
+  | [], [] => True
+  | (x, CV y) :: cr, (x', BV w) :: rr => x = x' /\ valOK sc vs lim y w /\ envOKl sc vs lim cr rr
+  | (f, CF p) :: cr, (f', BF body) :: rr => f = f' /\ funOK p body cel /\ envOKl sc vs lim cr rr
+  | _, _ => False
+  end.
+
 Definition envOK (sc : list frame) (ce : cenv) (rho : venv) (vs : list sv) (n0 lim : nat) : Prop :=
-  (forall x y, lookup x (ce_vars ce) = Some y ->
-     exists a w, index_of sc y = Some a /\ a < lim /\ lookup x rho = Some w /\ nth_error vs a = Some (SV w)) /\
+  envOKl sc vs lim (ce_env ce) rho /\
   (forall l y, lookup l (ce_lbls ce) = Some y ->
      exists a id, index_of sc y = Some a /\ a < lim /\ nth_error vs a = Some (SLbl id) /\ id < n0).
 
+Lemma envOKl_var : forall sc vs lim cel rho x y, envOKl sc vs lim cel rho -> lookup_cv x cel = Some y ->
+  exists a w, index_of sc y = Some a /\ a < lim /\ lookup_v x rho = Some w /\ nth_error vs a = Some (SV w).
+Proof.
+  induction cel as [|[z [k|p]] cr IH]; intros rho x y H Hl; simpl in *; [discriminate| |].
+  - destruct rho as [|[z' [w|b]] rr]; try contradiction. destruct H as (-> & (a & Ha & Hlt & Hn) & Hr). simpl.
+    destruct (N.eqb x z'); [inversion Hl; subst; eauto 8|eauto].
+  - destruct rho as [|[z' [w|b]] rr]; try contradiction. destruct H as (-> & _ & Hr). simpl. eauto.
+Qed.
+Lemma envOK_var : forall sc ce rho vs n0 lim x y, envOK sc ce rho vs n0 lim -> lookup_cv x (ce_env ce) = Some y ->
+  exists a w, index_of sc y = Some a /\ a < lim /\ lookup_v x rho = Some w /\ nth_error vs a = Some (SV w).
+Proof. intros sc ce rho vs n0 lim x y [H _]. eapply envOKl_var; eauto. Qed.
+
+(* a visible function: its body, its own environment (a suffix of both lists) *)
+Lemma envOKl_fun : forall sc vs lim cel rho f p, envOKl sc vs lim cel rho -> lookup_cf f cel = Some p ->
+  exists body cel' rho' pre, lookup_f f rho = Some (body, rho') /\ funOK p body cel' /\ envOKl sc vs lim cel' rho' /\
+                             cel = pre ++ cel'.
+Proof.
+  induction cel as [|[z [k|q]] cr IH]; intros rho f p H Hl; simpl in *; [discriminate| |].
+  - destruct rho as [|[z' [w|b]] rr]; try contradiction. destruct H as (-> & _ & Hr). simpl.
+    destruct (IH _ _ _ Hr Hl) as (body & cel' & rho' & pre & H1 & H2 & H3 & ->). exists body, cel', rho', ((z', CV k) :: pre). auto.
+  - destruct rho as [|[z' [w|b]] rr]; try contradiction. pose proof H as (-> & Hf & Hr). simpl.
+    destruct (N.eqb f z').
+    + inversion Hl; subst. exists b, ((z', CF p) :: cr), ((z', BF b) :: rr), []. simpl. auto.
+    + destruct (IH _ _ _ Hr Hl) as (body & cel' & rho' & pre & H1 & H2 & H3 & ->). exists body, cel', rho', ((z', CF q) :: pre). auto.
+Qed.
+
+Lemma envOKl_kept_lt : forall sc vs lim cel rho x y k, envOKl sc vs lim cel rho -> In (x, CV y) cel -> index_of sc y = Some k -> k < lim.
+Proof.
+  induction cel as [|[z [k0|p]] cr IH]; intros rho x y k H Hin Hi; simpl in *; [contradiction| |].
+  - destruct rho as [|[z' [w|b]] rr]; try contradiction. destruct H as (-> & (a & Ha & Hlt & Hn) & Hr).
+    destruct Hin as [E|Hin]; [inversion E; subst; congruence|eauto].
+  - destruct rho as [|[z' [w|b]] rr]; try contradiction. destruct H as (-> & _ & Hr).
+    destruct Hin as [E|Hin]; [discriminate|eauto].
+Qed.
 Lemma kept_lt : forall sc ce rho vs n0 lim k, envOK sc ce rho vs n0 lim -> kept sc ce k -> k < lim.
 Proof.
   intros sc ce rho vs n0 lim k [Hv Hl] [(x & y & Hx & Hi)|(l & y & Hx & Hi)].
-  - destruct (Hv _ _ Hx) as (a & w & Ha & Hlt & _). congruence.
+  - eapply envOKl_kept_lt; eauto.
   - destruct (Hl _ _ Hx) as (a & w & Ha & Hlt & _). congruence.
 Qed.
 
+Lemma envOKl_same : forall sc vs vs' lim cel rho, envOKl sc vs lim cel rho ->
+  (forall x y k, In (x, CV y) cel -> index_of sc y = Some k -> nth_error vs k = nth_error vs' k) -> envOKl sc vs' lim cel rho.
+Proof.
+  induction cel as [|[z [k0|p]] cr IH]; intros rho H Hs; simpl in *; auto.
+  - destruct rho as [|[z' [w|b]] rr]; try contradiction. destruct H as (-> & (a & Ha & Hlt & Hn) & Hr).
+    split; [auto|]. split; [exists a; rewrite <- (Hs z' k0 a); auto|]. apply IH; auto. intros; eapply Hs; eauto.
+  - destruct rho as [|[z' [w|b]] rr]; try contradiction. destruct H as (-> & Hf & Hr).
+    split; [auto|]. split; [auto|]. apply IH; auto. intros; eapply Hs; eauto.
+Qed.
 Lemma envOK_same : forall sc ce rho vs vs' n0 lim,
   envOK sc ce rho vs n0 lim -> (forall k, kept sc ce k -> nth_error vs k = nth_error vs' k) -> envOK sc ce rho vs' n0 lim.
 Proof.
   intros sc ce rho vs vs' n0 lim [Hv Hl] H. split.
-  - intros x y Hx. destruct (Hv _ _ Hx) as (a & w & Ha & Hk & Hw & Hn). exists a, w. repeat split; auto.
-    rewrite <- H; auto. left; eauto.
+  - eapply envOKl_same; eauto. intros x y k Hin Hi. apply H. left; eauto.
   - intros l y Hx. destruct (Hl _ _ Hx) as (a & id & Ha & Hk & Hn & Hid). exists a, id. repeat split; auto.
     rewrite <- H; auto. right; eauto.
 Qed.
@@ -38,11 +104,17 @@ Lemma envOK_keep : forall (K : nat -> Prop) sc ce rho vs vs' n0 lim,
   envOK sc ce rho vs n0 lim -> keepX K vs vs' -> (forall i, kept sc ce i -> K i) -> envOK sc ce rho vs' n0 lim.
 Proof. intros K sc ce rho vs vs' n0 lim H [_ C] HK. eapply envOK_same; eauto. Qed.
 
+Lemma envOKl_lim : forall sc vs lim lim' cel rho, envOKl sc vs lim cel rho -> lim <= lim' -> envOKl sc vs lim' cel rho.
+Proof.
+  induction cel as [|[z [k0|p]] cr IH]; intros rho H Hle; simpl in *; auto.
+  - destruct rho as [|[z' [w|b]] rr]; try contradiction. destruct H as (-> & (a & Ha & Hlt & Hn) & Hr).
+    split; [auto|]. split; [exists a; repeat split; auto; lia|auto].
+  - destruct rho as [|[z' [w|b]] rr]; try contradiction. destruct H as (-> & Hf & Hr). auto.
+Qed.
 Lemma envOK_lim : forall sc ce rho vs n0 lim lim', envOK sc ce rho vs n0 lim -> lim <= lim' -> envOK sc ce rho vs n0 lim'.
 Proof.
-  intros sc ce rho vs n0 lim lim' [Hv Hl] H. split; intros a k Hx.
-  - destruct (Hv _ _ Hx) as (b & w & ? & ? & ? & ?). exists b, w. repeat split; auto. lia.
-  - destruct (Hl _ _ Hx) as (b & w & ? & ? & ? & ?). exists b, w. repeat split; auto. lia.
+  intros sc ce rho vs n0 lim lim' [Hv Hl] H. split; [eapply envOKl_lim; eauto|]. intros a k Hx.
+  destruct (Hl _ _ Hx) as (b & w & ? & ? & ? & ?). exists b, w. repeat split; auto. lia.
 Qed.
 
 Lemma envOK_n0 : forall sc ce rho vs n0 n0' lim, envOK sc ce rho vs n0 lim -> n0 <= n0' -> envOK sc ce rho vs n0' lim.
@@ -56,10 +128,10 @@ Proof. intros sc ce rho vs n0 lim [_ Hl] l k Hx. destruct (Hl _ _ Hx) as (a & id
 
 Lemma envOK_add_var : forall sc ce rho vs n0 lim x y a w,
   envOK sc ce rho vs n0 lim -> index_of sc y = Some a -> a < lim -> nth_error vs a = Some (SV w) ->
-  envOK sc (add_var ce x y) ((x, w) :: rho) vs n0 lim.
+  envOK sc (add_var ce x y) ((x, BV w) :: rho) vs n0 lim.
 Proof.
   intros sc ce rho vs n0 lim x y a w [Hv Hl] Hi Hk Hn. split; simpl; auto.
-  intros z j. destruct (N.eqb z x); [|apply Hv]. intros E. inversion E; subst. exists a, w. auto.
+  split; [auto|]. split; [exists a; auto|auto].
 Qed.
 
 Lemma envOK_add_lbl : forall sc ce rho vs n0 lim l y a id,
@@ -70,10 +142,16 @@ Proof.
   intros z j. destruct (N.eqb z l); [|apply Hl]. intros E. inversion E; subst. exists a, id. auto.
 Qed.
 
+(* a function definition: the new entry describes the code just emitted *)
+Lemma envOK_add_fun : forall sc ce rho vs n0 lim f p body,
+  envOK sc ce rho vs n0 lim -> funOK p body ((f, CF p) :: ce_env ce) ->
+  envOK sc (add_fun ce f p) ((f, BF body) :: rho) vs n0 lim.
+Proof. intros sc ce rho vs n0 lim f p body [Hv Hl] Hf. split; simpl; auto. Qed.
+
 Lemma kept_add_var : forall sc ce x y a i, index_of sc y = Some a -> kept sc (add_var ce x y) i -> i = a \/ kept sc ce i.
 Proof.
   intros sc ce x y a i Ha [(z & w & Hz & Hi)|(l & w & Hl & Hi)]; simpl in *.
-  - destruct (N.eqb z x); [inversion Hz; subst; left; congruence|right; left; eauto].
+  - destruct Hz as [E|Hz]; [inversion E; subst; left; congruence|right; left; eauto].
   - right; right; eauto.
 Qed.
 Lemma kept_add_lbl : forall sc ce x y a i, index_of sc y = Some a -> kept sc (add_lbl ce x y) i -> i = a \/ kept sc ce i.
@@ -82,6 +160,29 @@ Proof.
   - right; left; eauto.
   - destruct (N.eqb l x); [inversion Hl; subst; left; congruence|right; right; eauto].
 Qed.
+Lemma kept_add_fun : forall sc ce f p i, kept sc (add_fun ce f p) i -> kept sc ce i.
+Proof.
+  intros sc ce f p i [(z & w & Hz & Hi)|(l & w & Hl & Hi)]; simpl in *.
+  - destruct Hz as [E|Hz]; [discriminate|left; eauto].
+  - right; eauto.
+Qed.
+End E.
+Arguments envOKl_var {code}.
+Arguments envOK_var {code}.
+Arguments envOKl_fun {code}.
+Arguments envOKl_kept_lt {code}.
+Arguments kept_lt {code}.
+Arguments envOKl_same {code}.
+Arguments envOK_same {code}.
+Arguments envOK_chg {code}.
+Arguments envOK_keep {code}.
+Arguments envOKl_lim {code}.
+Arguments envOK_lim {code}.
+Arguments envOK_n0 {code}.
+Arguments envOK_lblOK {code}.
+Arguments envOK_add_var {code}.
+Arguments envOK_add_lbl {code}.
+Arguments envOK_add_fun {code}.
 
 Section L.
 Variable nt : natives.
@@ -92,6 +193,7 @@ Notation G2 := (G2 nt code).
 Notation G c ws T := (Gen.G2 nt code c ws T T).
 Notation Tend := (Tend nt code).
 Notation at_ := (at_ code).
+Notation envOK := (envOK code).
 
 Definition code_at (pc : nat) (cq : list instr) : Prop :=
   forall i x, nth_error cq i = Some x -> nth_error code (pc + i) = Some x.
@@ -122,71 +224,94 @@ Definition stable (c : gctx) (P : list sv -> nat -> gx -> Prop) : Prop :=
   (forall a b m g m' g', P a m g -> chg (g_own c) a b -> cle m g m' g' -> P b m' g') /\
   (forall a b m g m' g', P a m g -> keepK0 c a b -> cle m g m' g' -> P b m' g').
 
-(* the frame on top of sc has scope id cur and offset base; the ids along the scope chain do not exceed cur
-   (a frame's outer frames belong to lexically enclosing scopes, which were created earlier) *)
+(* the frame on top of sc is an activation of the scope being executed (id cur) with offset base *)
 Definition frameOK (sc : list frame) (cur base : nat) : Prop :=
-  (forall k, index_of sc (cur, k) = Some (base + k)) /\ (forall y a, index_of sc y = Some a -> fst y <= cur).
+  exists rpc stamp save outer r, sc = Frame cur base rpc stamp save outer :: r.
+Lemma frameOK_cur : forall sc cur base, frameOK sc cur base -> forall k, index_of sc (cur, k) = Some (base + k).
+Proof. intros sc cur base (rpc & stamp & save & outer & r & ->) k. simpl. rewrite Nat.eqb_refl. reflexivity. Qed.
+Lemma frameOK_ne : forall sc cur base, frameOK sc cur base -> sc <> [].
+Proof. intros sc cur base (rpc & stamp & save & outer & r & ->). discriminate. Qed.
 
-(* a frame of a new scope pushed on top: the older scopes are found through its outer link *)
-Lemma index_of_push : forall id off rpc stamp sc y, fst y <> id ->
-  index_of (Frame id off rpc stamp sc sc :: sc) y = index_of sc y.
+(* the chain seen from a new frame of scope id: opscope links it to the frame the call captured, or to that
+   frame's outer frame when it is an activation of the same scope *)
+Lemma index_of_outer : forall sc id y, fst y <> id -> index_of (outer_of sc id sc) y = index_of sc y.
 Proof.
-  intros id off rpc stamp sc y H. simpl. destruct (Nat.eqb_spec id (fst y)); [congruence|]. destruct sc; reflexivity.
+  intros [|[i o p s sv out] r] id y H; simpl; [reflexivity|].
+  destruct (Nat.eqb_spec i id) as [->|Hne]; [|reflexivity].
+  destruct (Nat.eqb_spec id (fst y)); [congruence|]. destruct out; reflexivity.
 Qed.
-Lemma frameOK_top : forall sc cur base, frameOK sc cur base -> exists i o p s sv out r, sc = Frame i o p s sv out :: r /\ i <= cur.
+Definition pushed (sc : list frame) (id : nat) (sc' : list frame) : Prop :=
+  exists off rpc stamp save tl, sc' = Frame id off rpc stamp save (outer_of sc id sc) :: tl.
+Lemma index_of_pushed : forall sc id sc' y, pushed sc id sc' -> fst y <> id -> index_of sc' y = index_of sc y.
 Proof.
-  intros sc cur base [H1 H2]. destruct sc as [|[i o p s sv out] r]; [specialize (H1 0); discriminate|].
-  exists i, o, p, s, sv, out, r. split; [reflexivity|].
-  apply (H2 (i, 0) (o + 0)). simpl. rewrite Nat.eqb_refl. reflexivity.
+  intros sc id sc' y (off & rpc & stamp & save & tl & ->) H. simpl.
+  destruct (Nat.eqb_spec id (fst y)); [congruence|].
+  rewrite <- (index_of_outer sc id y H). destruct (outer_of sc id sc); reflexivity.
 Qed.
-Lemma outer_of_self : forall sc cur base sn, frameOK sc cur base -> cur < sn -> outer_of sc sn sc = sc.
+Lemma outer_of_self : forall sc cur base sn, frameOK sc cur base -> cur <> sn -> outer_of sc sn sc = sc.
 Proof.
-  intros sc cur base sn H Hlt. destruct (frameOK_top _ _ _ H) as (i & o & p & s & sv & out & r & -> & Hi).
-  simpl. destruct (Nat.eqb_spec i sn); [lia|reflexivity].
+  intros sc cur base sn (rpc & stamp & save & outer & r & ->) Hne. simpl. destruct (Nat.eqb_spec cur sn); [congruence|reflexivity].
 Qed.
-Lemma frameOK_push : forall sc cur base sn off rpc stamp, frameOK sc cur base -> cur < sn ->
-  frameOK (Frame sn off rpc stamp sc sc :: sc) sn off.
+
+Lemma ce_lt_var : forall ce sn x y, ce_lt ce sn = true -> In (x, CV y) (ce_env ce) -> fst y < sn.
 Proof.
-  intros sc cur base sn off rpc stamp [H1 H2] Hlt. split.
-  - intros k. simpl. rewrite Nat.eqb_refl. reflexivity.
-  - intros y a Hy. destruct (Nat.eq_dec (fst y) sn) as [E|E]; [lia|].
-    rewrite index_of_push in Hy by exact E. apply H2 in Hy. lia.
+  intros ce sn x y H Hin. unfold ce_lt in H. apply andb_true_iff in H. destruct H as [H _].
+  rewrite forallb_forall in H. specialize (H _ Hin). simpl in H. apply Nat.ltb_lt. exact H.
 Qed.
-Lemma index_of_push_ok : forall sc cur base sn off rpc stamp y a, frameOK sc cur base -> cur < sn ->
-  index_of sc y = Some a -> index_of (Frame sn off rpc stamp sc sc :: sc) y = Some a.
+Lemma lookup_In : forall {A} (l : list (BinNums.N * A)) x a, lookup x l = Some a -> exists x', In (x', a) l.
 Proof.
-  intros sc cur base sn off rpc stamp y a H Hlt Hy. rewrite index_of_push; [exact Hy|].
-  apply (proj2 H) in Hy. lia.
+  induction l as [|[z b] r IH]; intros x a H; simpl in H; [discriminate|].
+  destruct (N.eqb x z); [inversion H; subst; exists z; left; auto|]. destruct (IH _ _ H) as (x' & Hx). exists x'. right; auto.
 Qed.
-Lemma envOK_push : forall sc cur base sn off rpc stamp ce rho vs vs' n0 lim, frameOK sc cur base -> cur < sn ->
+Lemma ce_lt_lbl : forall ce sn l y, ce_lt ce sn = true -> lookup l (ce_lbls ce) = Some y -> fst y < sn.
+Proof.
+  intros ce sn l y H Hl. unfold ce_lt in H. apply andb_true_iff in H. destruct H as [_ H].
+  rewrite forallb_forall in H. destruct (lookup_In _ _ _ Hl) as (l' & Hin). specialize (H _ Hin). simpl in H. apply Nat.ltb_lt. exact H.
+Qed.
+Lemma lookup_cv_In : forall cel x y, lookup_cv x cel = Some y -> exists x', In (x', CV y) cel.
+Proof.
+  induction cel as [|[z [k|p]] r IH]; intros x y H; simpl in H; [discriminate| |].
+  - destruct (N.eqb x z); [inversion H; subst; exists z; left; auto|]. destruct (IH _ _ H) as (x' & Hx). exists x'. right; auto.
+  - destruct (IH _ _ H) as (x' & Hx). exists x'. right; auto.
+Qed.
+
+Lemma envOKl_pushed : forall sc id sc' vs vs' lim cel rho, pushed sc id sc' ->
+  (forall x y, In (x, CV y) cel -> fst y <> id) -> (forall a, a < lim -> nth_error vs' a = nth_error vs a) ->
+  envOKl code sc vs lim cel rho -> envOKl code sc' vs' lim cel rho.
+Proof.
+  intros sc id sc' vs vs' lim cel. induction cel as [|[z [k0|p]] cr IH]; intros rho Hp Hne Hn H; simpl in *; auto.
+  - destruct rho as [|[z' [w|b]] rr]; try contradiction. destruct H as (-> & (a & Ha & Hlt & Hnth) & Hr).
+    split; [auto|]. split.
+    + exists a. rewrite (index_of_pushed _ _ _ _ Hp (Hne z' k0 (or_introl eq_refl))). rewrite Hn by auto. auto.
+    + apply IH; auto. intros; eapply Hne; right; eauto.
+  - destruct rho as [|[z' [w|b]] rr]; try contradiction. destruct H as (-> & Hf & Hr).
+    split; [auto|]. split; [auto|]. apply IH; auto. intros; eapply Hne; right; eauto.
+Qed.
+Lemma envOK_pushed : forall sc id sc' ce rho vs vs' n0 lim, pushed sc id sc' -> ce_lt ce id = true ->
   envOK sc ce rho vs n0 lim -> (forall a, a < lim -> nth_error vs' a = nth_error vs a) ->
-  envOK (Frame sn off rpc stamp sc sc :: sc) ce rho vs' n0 lim.
+  envOK sc' ce rho vs' n0 lim.
 Proof.
-  intros sc cur base sn off rpc stamp ce rho vs vs' n0 lim H Hlt [Hv Hl] Hn. split.
-  - intros x y Hx. destruct (Hv _ _ Hx) as (a & w & Ha & Hk & Hw & Hnth). exists a, w.
-    split; [eapply index_of_push_ok; eauto|]. split; [auto|]. split; [auto|]. rewrite Hn; auto.
-  - intros l y Hx. destruct (Hl _ _ Hx) as (a & id & Ha & Hk & Hnth & Hid). exists a, id.
-    split; [eapply index_of_push_ok; eauto|]. split; [auto|]. split; [rewrite Hn; auto|auto].
+  intros sc id sc' ce rho vs vs' n0 lim Hp Hlt [Hv Hl] Hn. split.
+  - eapply envOKl_pushed; eauto. intros x y Hin. pose proof (ce_lt_var _ _ _ _ Hlt Hin). lia.
+  - intros l y Hx. destruct (Hl _ _ Hx) as (a & id' & Ha & Hk & Hnth & Hid). exists a, id'.
+    pose proof (ce_lt_lbl _ _ _ _ Hlt Hx).
+    split; [rewrite (index_of_pushed _ _ _ _ Hp); [exact Ha|lia]|]. split; [auto|]. split; [rewrite Hn; auto|auto].
 Qed.
-Lemma kept_push : forall sc cur base sn off rpc stamp ce rho vs n0 lim i, frameOK sc cur base -> cur < sn ->
-  envOK sc ce rho vs n0 lim -> kept (Frame sn off rpc stamp sc sc :: sc) ce i -> kept sc ce i.
+Lemma kept_pushed : forall sc id sc' ce i, pushed sc id sc' -> ce_lt ce id = true -> kept sc' ce i -> kept sc ce i.
 Proof.
-  intros sc cur base sn off rpc stamp ce rho vs n0 lim i H Hlt [Hv Hl] [(x & y & Hx & Hi)|(l & y & Hx & Hi)].
-  - destruct (Hv _ _ Hx) as (a & w & Ha & _). pose proof (index_of_push_ok _ _ _ sn off rpc stamp _ _ H Hlt Ha) as E.
-    rewrite E in Hi. inversion Hi; subst. left. eauto.
-  - destruct (Hl _ _ Hx) as (a & w & Ha & _). pose proof (index_of_push_ok _ _ _ sn off rpc stamp _ _ H Hlt Ha) as E.
-    rewrite E in Hi. inversion Hi; subst. right. eauto.
+  intros sc id sc' ce i Hp Hlt [(x & y & Hx & Hi)|(l & y & Hx & Hi)].
+  - pose proof (ce_lt_var _ _ _ _ Hlt Hx). rewrite (index_of_pushed _ _ _ _ Hp) in Hi by lia. left. eauto.
+  - pose proof (ce_lt_lbl _ _ _ _ Hlt Hx). rewrite (index_of_pushed _ _ _ _ Hp) in Hi by lia. right. eauto.
 Qed.
-Lemma encR_push : forall sc cur base sn off rpc stamp ce rho vs0 n0 lim vs fin e, frameOK sc cur base -> cur < sn ->
-  envOK sc ce rho vs0 n0 lim -> encR (Frame sn off rpc stamp sc sc :: sc) ce vs fin e -> encR sc ce vs fin e.
+Lemma encR_pushed : forall sc id sc' ce vs fin e, pushed sc id sc' -> ce_lt ce id = true ->
+  encR sc' ce vs fin e -> encR sc ce vs fin e.
 Proof.
-  intros sc cur base sn off rpc stamp ce rho vs0 n0 lim vs fin e H Hlt [Hv Hl] HE. destruct fin as [[e0|l]|]; cbn [encR] in *; auto.
-  destruct HE as (y & k & id & Hk & Hi & Hn & E). exists y, k, id.
-  destruct (Hl _ _ Hk) as (a & id' & Ha & _). pose proof (index_of_push_ok _ _ _ sn off rpc stamp _ _ H Hlt Ha) as E0.
-  rewrite E0 in Hi. inversion Hi; subst. auto.
+  intros sc id sc' ce vs fin e Hp Hlt HE. destruct fin as [[e0|l|]|]; cbn [encR] in *; auto.
+  destruct HE as (y & k & id' & Hk & Hi & Hn & E). exists y, k, id'.
+  pose proof (ce_lt_lbl _ _ _ _ Hlt Hk). rewrite (index_of_pushed _ _ _ _ Hp) in Hi by lia. auto.
 Qed.
 
-Definition Impl (q : query) : Prop :=
+Definition Impl (fu : nat) (q : query) : Prop :=
   forall sc cur base, frameOK sc cur base ->
   forall ce pc nv sn cq nv' sn', comp q ce cur pc nv sn = Some (cq, nv', sn') -> code_at pc cq ->
   forall rho v st fk vs n n0 o ko g (K K0 : nat -> Prop) (P : list sv -> nat -> gx -> Prop),
@@ -194,7 +319,7 @@ Definition Impl (q : query) : Prop :=
     (forall i, base + nv <= i < base + nv' -> K i) -> (forall i, kept sc ce i -> K i) -> (forall i, K0 i -> K i) ->
     let c := ctx_of sc (pc + length cq) st fk (base + nv) (base + nv') o ko K K0 ce n0 (ctr g) in
     stable c P -> P vs n g ->
-    G c (fst (den nt q rho v)) (Tend c (snd (den nt q rho v)) P) (N sc pc (SV v :: st) fk vs n o g).
+    G c (fst (den1 nt (call_of nt fu) q rho v)) (Tend c (snd (den1 nt (call_of nt fu) q rho v)) P) (N sc pc (SV v :: st) fk vs n o g).
 
 (* one output, no new fork *)
 Lemma G_single : forall c w s vs3 n3 o3 g3 (P : list sv -> nat -> gx -> Prop),
@@ -216,7 +341,7 @@ Lemma G_end : forall c s e vs3 n3 g3 fin (P : list sv -> nat -> gx -> Prop),
 Proof.
   intros c s e vs3 n3 g3 fin P St Ch Le HE HP. simpl. exists s.
   split; [constructor|]. split; [apply chg_refl|]. split; [apply cle_refl|].
-  exists e, vs3, n3, g3. auto.
+  apply Tend_of. exists e, vs3, n3, g3. auto.
 Qed.
 
 Lemma G_cons : forall c w ws (T Tw : state -> Prop) s f0 fk0 vs3 n3 o3 g3,
@@ -293,6 +418,8 @@ Hypothesis Hbind : forall s x b, P s -> P b -> P (QBind s x b).
 Hypothesis Hvar : forall x, P (QVar x).
 Hypothesis Hcall0 : forall f, P (QCall0 f).
 Hypothesis Hbinop : forall o a b, P a -> P b -> P (QBinop o a b).
+Hypothesis Hdef : forall f ps body rest, P body -> P rest -> P (QDef f ps body rest).
+Hypothesis Hcallf : forall f args, Forall P args -> P (QCallF f args).
 
 Fixpoint query_ind' (q : query) : P q :=
   match q with
@@ -317,6 +444,10 @@ Fixpoint query_ind' (q : query) : P q :=
   | QVar x => Hvar x
   | QCall0 f => Hcall0 f
   | QBinop o a b => Hbinop o a b (query_ind' a) (query_ind' b)
+  | QDef f ps body rest => Hdef f ps body rest (query_ind' body) (query_ind' rest)
+  | QCallF f args => Hcallf f args
+      ((fix go (l : list query) : Forall P l :=
+          match l with [] => Forall_nil P | x :: r => Forall_cons x (query_ind' x) (go r) end) args)
   end.
 End QInd.
 
@@ -326,13 +457,15 @@ Ltac dcomp :=
       let E := fresh "Ec" in destruct (comp q ce cur pc nv sn) as [[[? ?] ?]|] eqn:E; [|discriminate H]
   | H : match lookup ?x ?l with _ => _ end = Some _ |- _ =>
       let E := fresh "El" in destruct (lookup x l) eqn:E; [|discriminate H]
+  | H : match lookup_cv ?x ?l with _ => _ end = Some _ |- _ =>
+      let E := fresh "El" in destruct (lookup_cv x l) eqn:E; [|discriminate H]
   end.
 
 
 Ltac qind q :=
   induction q as [ | c | a b IHa IHb | a b IHa IHb | | t IHt | t k IHt | c a b IHc IHa IHb | a b IHa IHb
                  | a h IHa IHh | q IHq | s x i u IHs IHi IHu | s x i u e IHs IHi IHu IHe | l b IHb | l
-                 | s x b IHs IHb | x | f | o a b IHa IHb ] using query_ind'.
+                 | s x b IHs IHb | x | f | o a b IHa IHb | f ps body rest IHbody IHrest | f args IHargs ] using query_ind'.
 
 Lemma comp_mono : forall q ce cur pc nv sn cq nv' sn', comp q ce cur pc nv sn = Some (cq, nv', sn') -> nv <= nv' /\ sn <= sn'.
 Proof.
@@ -348,12 +481,15 @@ Proof.
   - (* array *) destruct (array_fold q); inversion Hc; subst; lia.
   - (* foreach *) destruct e as [e|]; simpl in *; dcomp; inversion Hc; subst; clear Hc.
     + apply IHe in Ec2. lia. + lia.
-  - (* binop *) destruct (Nat.ltb cur sn); [|discriminate].
+  - (* binop *) destruct (Nat.ltb cur sn && ce_lt ce sn); [|discriminate].
     match type of Hc with context [comp b ce ?c ?p ?n ?s] =>
       destruct (comp b ce c p n s) as [[[cb nb] s1]|] eqn:Eb; [|discriminate] end. cbv iota beta in Hc.
     match type of Hc with context [comp a ce ?c ?p ?n ?s] =>
       destruct (comp a ce c p n s) as [[[ca na] s2]|] eqn:Ea; [|discriminate] end. cbv iota beta in Hc.
     inversion Hc; subst. apply IHb in Eb. apply IHa in Ea. lia.
+  - (* def *) destruct ps; [|discriminate]. destruct (Nat.ltb cur sn && ce_lt ce sn); [|discriminate].
+    dcomp. inversion Hc; subst. apply IHbody in Ec. apply IHrest in Ec0. lia.
+  - (* callf *) destruct args; [|discriminate]. destruct (lookup_cf f (ce_env ce)); [|discriminate]. inversion Hc; subst; lia.
 Qed.
 
 (* ---- den-level facts ---- *)
